@@ -1,9 +1,9 @@
 SPECIFICATION Spec
 CONSTANTS
-  Alpha = {22,9,10,2,23,11,5,8,24,25,19,18}
+  Alpha = {1,2,3,4,5,6,7,8,9,10,11,12}
   MaxLen = 5
   KA = {3}
-  KB = {1,3}
+  KB = {1}
   Comments = {TRUE}
   Numeric = {TRUE}
 INVARIANTS FilterValid ValidUnchanged FilterSafe Idempotent ValidIsSafe
